@@ -46,12 +46,25 @@ func main() {
 	prop := flag.String("prop", "", "property id, e.g. C05")
 	tier := flag.String("tier", "quick", "quick|thorough")
 	list := flag.Bool("list", false, "list properties and rules")
+	listFuncs := flag.Bool("listfuncs", false, "print the declared functions of the package (to regenerate triage/known_functions.txt)")
 	noEvidence := flag.Bool("no-evidence", false, "do not write evidence files (used by the self-test on scratch copies)")
 	expect := flag.String("expect", "", "self-test: comma separated rule[:construct-substring] that must fire; exit 0 iff all fire")
 	only := flag.String("only", "", "run only this rule of the property (replay)")
 	dumpfn := flag.String("dumpfn", "", "debug: print the symbolic paths of a function (Recv.Name)")
 	dumphnd := flag.String("dumphnd", "", "debug: print the handler summary of an opcode constant")
 	flag.Parse()
+	if *listFuncs {
+		ctx, err := loadRepo(*repo, nil)
+		if err != nil {
+			fmt.Println(err)
+			os.Exit(2)
+		}
+		for _, n := range ctx.FuncNames() {
+			fmt.Println(n)
+		}
+		return
+	}
+	triageDir = filepath.Join(*verif, "triage")
 	if *dumpfn != "" || *dumphnd != "" {
 		ctx, err := loadRepo(*repo, nil)
 		if err != nil {
